@@ -1,7 +1,7 @@
 SPECIFICATION SimSpec
 CONSTANTS
   ModelSel = {1,2,3}
-  BoundSel = {1,2,3,4}
+  BoundSel = {1,2,3,4,5,6,7}
   FactorSel = {1,2}
   PriorSel = {1,2,3,4}
   ModeSel = {1,2,3,4,5,6,7}
@@ -13,6 +13,9 @@ CONSTANTS
   ObsMerge = "always"
   ModeStore = "canonical"
   UpdateGuard = "before"
+  BoundaryGuard = "none"
+  UpdateArg = "kept"
+  TrackArg = TRUE
   ModeCalls <- MCModeCalls
   InvalidModes <- MCInvalidModes
   ObsParams <- MCObsParams
@@ -32,6 +35,7 @@ CONSTANTS
   K <- MCK
 INVARIANT SpacesAgree
 INVARIANT ViewsReadable
+INVARIANT ArgumentKept
 INVARIANT OrderIsDeclarationOrder
 CONSTRAINT Emit
 CHECK_DEADLOCK FALSE
